@@ -17,8 +17,8 @@ func init() {
 	fw.Register("C17", fw.Spec{Run: runC17})
 }
 
-var c17Filters = []string{"#", "+", "+/#", "x/+", "x/a", "+/a", "x/#", "tA/#", "tB/x/a", "tA/x/a", "+/x/a"}
-var c17Topics = []string{"x/a", "x/b", "y", "tA/x/a", "tB/x/a", "x/a/b", "tB", "tA"}
+var c17Filters = []string{"#", "+", "+/#", "x/+", "x/a", "+/a", "x/#", "tA/#", "tB/x/a", "tA/x/a", "+/x/a", "/#", "/+", "//y"}
+var c17Topics = []string{"x/a", "x/b", "y", "tA/x/a", "tB/x/a", "x/a/b", "tB", "tA", "/x", "//y", "/"}
 
 type c17Sub struct {
 	tenant string
